@@ -25,6 +25,8 @@ pub enum Op {
     Cookie(&'static str, bool),
     // content
     Text(&'static str), Json, Html, Payload, DropContent,
+    /// `set_stream` with a one-message stream (server-sent events: chunked coding instead of a length)
+    Stream,
 }
 #[derive(Clone, Copy, Debug, PartialEq, Eq, Hash)]
 pub enum Std { Server, Vary, ContentType, ContentEncoding }
@@ -42,7 +44,7 @@ pub fn alphabet() -> Vec<Op> {
         SetX("X-A", "x"), SetX("X-A", "yy"), AppendX("X-A", "z"), RemoveX("X-A"),
         SetX("X-B", "b"), RemoveX("X-B"),
         Cookie("v", false), Cookie("a b;", true),
-        Text(""), Text("hi"), Json, Html, Payload, DropContent,
+        Text(""), Text("hi"), Json, Html, Payload, DropContent, Stream,
     ]
 }
 
@@ -66,7 +68,15 @@ fn apply(res: &mut Response, op: &Op) {
         Html => res.set_html("<p>\u{e9}</p>"),
         Payload => res.set_payload("application/octet-stream", PAYLOAD),
         DropContent => { let _ = res.drop_content(); }
+        Stream => res.set_stream(One(Some("m".to_string()))),
     }
+}
+
+/// a stream of exactly one message
+struct One(Option<String>);
+impl ohkami::util::Stream for One {
+    type Item = String;
+    fn poll_next(mut self: std::pin::Pin<&mut Self>, _cx: &mut std::task::Context<'_>) -> std::task::Poll<Option<String>> { std::task::Poll::Ready(self.0.take()) }
 }
 
 /* ---------------- model ---------------- */
@@ -77,6 +87,8 @@ struct Model {
     headers: Vec<(String, String)>,
     cookies: usize,
     body: Option<Vec<u8>>,
+    /// the content is a stream: chunked coding instead of Content-Length
+    stream: bool,
 }
 impl Model {
     fn set(&mut self, n: &str, v: String) { match self.headers.iter_mut().find(|(k, _)| k == n) { Some(e) => e.1 = v, None => self.headers.push((n.into(), v)) } }
@@ -92,11 +104,12 @@ impl Model {
             AppendX(n, v) => self.append(n, v),
             RemoveX(n) => self.remove(n),
             Cookie(..) => self.cookies += 1,
-            Text(t) => { self.set("Content-Type", "text/plain; charset=UTF-8".into()); self.body = Some(t.as_bytes().to_vec()) }
-            Json => { self.set("Content-Type", "application/json".into()); self.body = Some(br#"{"a":1}"#.to_vec()) }
-            Html => { self.set("Content-Type", "text/html; charset=UTF-8".into()); self.body = Some("<p>\u{e9}</p>".as_bytes().to_vec()) }
-            Payload => { self.set("Content-Type", "application/octet-stream".into()); self.body = Some(PAYLOAD.to_vec()) }
-            DropContent => { self.remove("Content-Type"); self.body = None }
+            Text(t) => { self.set("Content-Type", "text/plain; charset=UTF-8".into()); self.body = Some(t.as_bytes().to_vec()); self.stream = false }
+            Json => { self.set("Content-Type", "application/json".into()); self.body = Some(br#"{"a":1}"#.to_vec()); self.stream = false }
+            Html => { self.set("Content-Type", "text/html; charset=UTF-8".into()); self.body = Some("<p>\u{e9}</p>".as_bytes().to_vec()); self.stream = false }
+            Payload => { self.set("Content-Type", "application/octet-stream".into()); self.body = Some(PAYLOAD.to_vec()); self.stream = false }
+            DropContent => { self.remove("Content-Type"); self.body = None; self.stream = false }
+            Stream => { self.set("Content-Type", "text/event-stream".into()); self.set("Cache-Control", "no-cache, must-revalidate".into()); self.body = Some(b"data: m\n\n".to_vec()); self.stream = true }
         }
     }
 }
@@ -137,6 +150,7 @@ fn last_pattern(history: &[Op], name: &str) -> String {
             AppendX(n, _) if n.eq_ignore_ascii_case(name) => Some("append"),
             RemoveX(n) if n.eq_ignore_ascii_case(name) => Some("remove"),
             Text(_) | Json | Html | Payload if name.eq_ignore_ascii_case("Content-Type") || name.eq_ignore_ascii_case("Content-Length") => Some("payload"),
+            Stream if name.eq_ignore_ascii_case("Content-Type") || name.eq_ignore_ascii_case("Content-Length") || name.eq_ignore_ascii_case("Cache-Control") => Some("stream"),
             DropContent if name.eq_ignore_ascii_case("Content-Type") || name.eq_ignore_ascii_case("Content-Length") => Some("drop"),
             _ => None,
         }
@@ -219,6 +233,9 @@ fn check_case(ctx: &mut Ctx, router: &VerifRouter, history: &[Op], status: u16, 
                 if cl.len() > 1 { problems.push((format!("framing/{clpat}/duplicate-content-length"), format!("{cl:?}"))) }
             } else {
                 use crate::refmodel::http::Framing;
+                let te = p.header_all("Transfer-Encoding");
+                if model.stream && p.framing != Framing::Chunked { problems.push((format!("framing/{clpat}/stream-not-chunked"), format!("{te:?}"))) }
+                if !model.stream && !te.is_empty() { problems.push((format!("framing/{clpat}/transfer-encoding-left-on-non-stream"), format!("{te:?} with Content-Length {cl:?}"))) }
                 match p.framing {
                     Framing::ContentLength => {
                         if cl.len() != 1 { problems.push((format!("framing/{clpat}/duplicate-content-length"), format!("{cl:?}"))) }
